@@ -8,6 +8,17 @@ HERE = os.path.dirname(os.path.dirname(os.path.abspath(__file__)))
 TECH = "deterministic simulation with fault injection: "
 
 CHECKS = {
+    "C04": dict(
+        level="exploration",
+        text="For generated null-datamodel charts (parallel, history incl. nested, finals, internal/targetless/multi-target/eventless transitions, raise/send/cancel/log/if "
+             "content, In() conditions; a third parallel-biased with long repeated-event histories) ChartToC::transform runs in-process; the emitted text is compiled as C with "
+             "the sizing macros it emits (gcc -O0, ASan+UBSan) together with a host whose callbacks are backed by its own queues, and fed the external events in the order the "
+             "interpreter dequeued them under the same timed history on the simulated clock. Compared record by record: events dequeued, log/raise/send/cancel content, done "
+             "events, configurations, termination; any sanitizer report of the hosted machine is an out-of-bounds violation.",
+        ref="DESIGN.md 6/C04",
+        note="differential execution under a shared simulated history, not an interleaving search (the generated machine has no threads or timers); null datamodel, no invoke, "
+             "fault-free plans; runs cut by the step cap are compared up to the cut; sanitizer build only (the unsanitized compile is not run).",
+        technique=TECH + "shared simulated timed history replayed into the compiled transpiler output (sanitizers on), record-by-record trace equality against the interpreter"),
     "C20": dict(
         level="exploration",
         text="The environment is the schedule: the same generated document (nested invoked machines with explicit ids, many event names) at the same URL is transpiled by two "
@@ -130,7 +141,6 @@ NOT_APPLICABLE = [
 
 # properties that will be claimed once their check exists; until then they are listed as not (yet) claimed
 PENDING = {
-    "C04": "not claimed yet: generated-C host under construction (DESIGN.md 6/C04)",
     "C06": "not claimed yet: spin-simulation differential under construction (DESIGN.md 6/C06)",
 }
 
